@@ -306,7 +306,8 @@ def _crystals(am, np):
 @group('homogeneous_deformation', kind='bounded', files=[STRF, DISPF], functions=['Strain.Strain', 'core.displacement', 'nye_tensor'],
        clause='a homogeneous deformation gradient F imposed on a perfect crystal yields at every atom G = F^-T, the strain/rotation/invariants that follow from it and a vanishing Nye tensor; the '
               'displacement is the imposed displacement through the periodic boundaries; results are unchanged by a common translation and permute under consistent renumbering',
-       rule='crystals {fcc, bcc, B2, hcp, diamond} x 4 deformation gradients (incl. a pure rotation) x reference given as basesystem or as p_vectors x {as built, translated, renumbered}; '
+       rule='crystals {fcc, bcc, B2, hcp, diamond} x 4 deformation gradients (incl. a pure rotation) x reference given as basesystem or as p_vectors x {as built, translated, renumbered}; the '
+            'stand-alone nye_tensor function on the same crystals in 3 orientations with the reference vectors given as one list + axes, one list per atom + axes, or pre-rotated without axes; '
             'non-trivial = F != I')
 def homogeneous(tier, seed):
     from pyvc.native import atomman
@@ -374,6 +375,58 @@ def homogeneous(tier, seed):
             msgs.append('raised %s: %s' % (type(e).__name__, e))
         if msgs:
             fails.append({'obligation': 'homogeneous.post', 'key': key, 'input': key, 'detail': '; '.join(msgs[:3])})
+    # ---- the stand-alone nye_tensor function on ORIENTED crystals: reference vectors are given in the crystal frame together with the crystal's axes; one list for all
+    # atoms or one list per atom
+    def rot(axis, deg):
+        axis = np.asarray(axis, dtype=float) / np.linalg.norm(axis)
+        t = np.radians(deg)
+        K = np.array([[0, -axis[2], axis[1]], [axis[2], 0, -axis[0]], [-axis[1], axis[0], 0]])
+        return np.eye(3) + np.sin(t) * K + (1 - np.cos(t)) * K.dot(K)
+    orients = {'standard': np.eye(3), 'z35': rot([0, 0, 1], 35), 'general': rot([1, 2, -1], 48)}
+    F = Fs[1]
+    for (cname, (ucell, cutoff, size)), (oname, R), form in itertools.product(_crystals(am, np).items(), orients.items(), ['one list', 'list per atom', 'no axes']):
+        evals += 1
+        nontriv += oname != 'standard'
+        key = 'nye_tensor,%s,%s,%s' % (cname, oname, form)
+        msgs = []
+        try:
+            base = ucell.supersize(*size)
+            n = base.natoms
+            nl0 = am.NeighborList(system=base, cutoff=cutoff)
+            pv = [base.dvect(i, nl0[i]) for i in range(n)]                      # crystal frame
+            # all atoms of a Bravais crystal share one list; otherwise only the per-atom form applies
+            as_set = lambda P: set(tuple(np.round(v, 5) + 0.0) for v in np.asarray(P))
+            same = all(as_set(pv[i]) == as_set(pv[0]) for i in range(n))
+            if form == 'one list' and not same:
+                evals -= 1
+                nontriv -= oname != 'standard'
+                continue
+            opos = base.atoms.pos.dot(R.T)                                          # the crystal as oriented in the system: rows of R are the crystal axes... x' = R x
+            obox = base.box.vects.dot(R.T)
+            Fo = F
+            dsys = am.System(atoms=am.Atoms(atype=base.atoms.atype, pos=opos.dot(Fo.T)), box=am.Box(vects=obox.dot(Fo.T), origin=base.box.origin.dot(R.T).dot(Fo.T)))
+            nl1 = am.NeighborList(system=dsys, cutoff=cutoff * 1.03)
+            if form == 'no axes':
+                res = am.defect.nye_tensor(dsys, p_vectors=[np.asarray(p_).dot(R.T) for p_ in pv], neighbors=nl1)
+            elif form == 'one list':
+                res = am.defect.nye_tensor(dsys, p_vectors=[pv[0]], axes=R, neighbors=nl1)
+            else:
+                res = am.defect.nye_tensor(dsys, p_vectors=pv, axes=R, neighbors=nl1)
+            G = np.linalg.inv(Fo).T
+            e = ((np.eye(3) - G) + (np.eye(3) - G).T) / 2
+            w = ((np.eye(3) - G) - (np.eye(3) - G).T) / 2
+            if not np.allclose(res['strain'], e[None], atol=1e-8):
+                msgs.append('strain differs from sym(I - F^-T) (max %g)' % np.abs(res['strain'] - e[None]).max())
+            if not np.allclose(res['strain_invariant_1'], np.trace(e), atol=1e-8) or not np.allclose(res['strain_invariant_2'], 0.5 * (np.trace(e) ** 2 - np.trace(e.dot(e))), atol=1e-8):
+                msgs.append('strain invariants differ')
+            if not np.allclose(res['angular_velocity'], np.sqrt(w[0, 1] ** 2 + w[0, 2] ** 2 + w[1, 2] ** 2), atol=1e-8):
+                msgs.append('angular velocity differs')
+            if not np.allclose(res['Nye_tensor'], 0, atol=1e-6):
+                msgs.append('Nye tensor not zero (max %g)' % np.abs(res['Nye_tensor']).max())
+        except Exception as e_:
+            msgs.append('raised %s: %s' % (type(e_).__name__, e_))
+        if msgs:
+            fails.append({'obligation': 'homogeneous.post', 'key': key, 'input': key, 'detail': 'nye_tensor(%s, %s orientation, reference vectors as %s): %s' % (cname, oname, form, '; '.join(msgs[:3]))})
     files = {rel: hashlib.sha256(open(os.path.join(REPO, rel), 'rb').read()).hexdigest() for rel in (STRF, DISPF)}
     return {'family': 'homogeneous deformation of perfect crystals', 'evaluations': evals, 'distinct_nontrivial': nontriv, 'rule': 'see group rule', 'samples': samples, 'failures': fails[:12], 'files': files}
 
